@@ -22,7 +22,7 @@ S(x) == {x[i] : i \in DOMAIN x}
 RegOf(s)  == [w \in Waiters |-> IF \E i \in DOMAIN s.reg : s.reg[i][1] = w
                                 THEN s.reg[CHOOSE i \in DOMAIN s.reg : s.reg[i][1] = w][2] ELSE NoCode]
 WaitOf(s) == LET r == RegOf(s) IN [c \in InRange |-> {w \in S(s.park) \cap Waiters : r[w] = c}]
-Lab(x) == [op |-> x.op, ws |-> S(x.ws), cs |-> S(x.cs), dl |-> x.dl, rel |-> S(x.rel), n |-> x.n, pan |-> x.pan]
+Lab(x) == [op |-> x.op, ws |-> S(x.ws), cs |-> S(x.cs), dl |-> x.dl, rep |-> x.rep, rel |-> S(x.rel), n |-> x.n, pan |-> x.pan]
 Load(s) == /\ via' = s.via /\ reg' = RegOf(s) /\ called' = {} /\ waiting' = WaitOf(s)
            /\ released' = {} /\ returned' = S(s.done) /\ UNCHANGED hist
 Same(s) == /\ via = s.via /\ reg = RegOf(s) /\ waiting = WaitOf(s) /\ returned = S(s.done)
@@ -30,6 +30,7 @@ TraceInit == /\ l = 2 /\ TraceLog[1].ev = "reset"
              /\ via = TraceLog[1].post.via /\ reg = RegOf(TraceLog[1].post) /\ called = {}
              /\ waiting = WaitOf(TraceLog[1].post) /\ released = {} /\ returned = S(TraceLog[1].post.done)
              /\ reqlog = <<>> /\ parkedAt = [w \in Waiters |-> 0] /\ nreq = 0
+             /\ hcount = [c \in InRange |-> 0] /\ seen = [w \in Waiters |-> 0]
              /\ last = L("reset", {}, {}, {}, 0)
 Reset == /\ l <= Len(TraceLog) /\ TraceLog[l].ev = "reset" /\ Load(TraceLog[l].post)
          /\ last' = L("reset", {}, {}, {}, 0) /\ l' = l + 1
